@@ -158,6 +158,22 @@ CHECKS = {
         note="Trusted: Lean kernel; Audit/Report.lean is a model of richreports' stacks/render; token positions come from asttokens.",
         technique="Lean 4 proof by induction over pushes/cells of the report model + token-level report oracle",
         design="6 C17"),
+    "C18": dict(
+        text="Lean theorems for every straight-line program of the common subset (any length; unused, never-wrapped, re-wrapped and "
+             "same-name inputs, duplicate party names included) that both interpreters of Audit/Signature.lean accept: `outputs_agree` "
+             "(same names, parties, value classes, order), `mir_inputs_in_signature`, `mir_parties_in_signature`, `extra_inputs_exact`, "
+             "`extra_parties_exact` (the signature's extras are exactly what no output depends on / is delivered to), by a lockstep "
+             "simulation (`run_rel`) whose operator case is `tables_agree`: decide +kernel over the abstract-operator table regenerated "
+             "from abstract.py (T5) against the scalar typing kernel (tied to the real classes by T1). Both interpreters are tied to the "
+             "code by K8: real signature() and real compile_string() on rendered programs (lists, sum, loops, comprehensions, helper "
+             "functions, module-level declarations) are compared with the model's two results, and the property is decided directly on "
+             "the two real results.",
+        note="Trusted: Lean kernel, T5/T1; Audit/Signature.lean is a hand-written model (abstract aggregators; interface view of the "
+             "compiler = inputs reachable from outputs), sampled against the real code by K8. `mir_outputs` needs the hypothesis "
+             "freshOutputs (no output hands over a stale wrapper of a re-wrapped Input), the complement of known finding F-C03-2; "
+             "`stale_wrapper_output_differs` shows it is necessary.",
+        technique="Lean 4 proof by simulation induction over the command list + kernel-decided regenerated table; differential run of both real sides",
+        design="6 C18"),
     "C19": dict(
         text="Lean theorems for all texts and line numbers (`lineInfo_exact`: offset/length delimit exactly the line, last line "
              "included; `intern_*`: to_index returns an equal entry and keeps earlier indices; `resolve_user`: the frame walk returns "
